@@ -75,7 +75,7 @@ def def_source(od, stub='none'):
     return [f"    def {python_name(od['name'])}({ps}):", body]
 
 
-def source(D, deco, stub='none', prelude=True):
+def source(D, deco, stub='none', prelude=True, init_always=False):
     """the module text: same layout as harness/kstatic.py (nameless features, reference types and opposites
     assigned after the classes), @abstract outermost; stub='raise': method bodies raise NotImplementedError as
     generated code does"""
@@ -99,9 +99,10 @@ def source(D, deco, stub='none', prelude=True):
         body = [f"    {fd['name']} = {feature_source(fd)}" for fd in c['features']]
         for od in c['operations']:
             body += def_source(od, stub)
-        if not deco:
-            body += ['    def __init__(self, **kwargs):', '        super().__init__()',
-                     '        for k, v in kwargs.items():', '            setattr(self, k, v)']
+        if not deco or init_always:      # init_always: generated code writes an __init__ whatever the style
+            # (no super() under @EMetaclass: the decorator re-creates the class, super()'s cell holds the old one)
+            body += ['    def __init__(self, **kwargs):'] + ([] if deco else ['        super().__init__()']) + \
+                    ['        for k, v in kwargs.items():', '            setattr(self, k, v)']
         L += body or ['    pass']
         if c.get('interface'):
             L.append(f"{c['name']}.eClass.interface = True")
@@ -699,6 +700,7 @@ class Behaviour:
     """one rendering of D ('dynamic' | 'static-meta' | 'static-decorator') driven through a history"""
 
     breadth = False
+    init_always = False
 
     def __init__(self, D, render):
         common.use_repo()
@@ -709,7 +711,7 @@ class Behaviour:
             self.factories = list(self.eclasses)
             self.pkg = self.eclasses[0].ePackage
         else:
-            self.mod = execute(source(D, render == 'static-decorator', stub='raise'), 'bh')
+            self.mod = execute(source(D, render == 'static-decorator', stub='raise', init_always=self.init_always), 'bh')
             self.factories = [self.mod.__dict__[c['name']] for c in D['classes']]
             self.eclasses = [f.eClass for f in self.factories]
             self.pkg = self.mod
@@ -1186,4 +1188,103 @@ def offers_history(D, rng):
     for _ in range(rng.choice([1, 1, 2])):
         ci = rng.choice(nodes)
         h.append(['proxy', ci, ci if rng.random() < 0.7 else rng.choice(nodes), rng.choice(['handle', 'eclass'])])
+    return h
+
+
+# ------------------------------------------------------------------ instances made through constructor keywords
+# ['ctor', ci, {feature: token}]: cls(**keywords) becomes THE instance of class ci (then 'state', 'xload', ...)
+# token: ['v', json value] | ['none'] | ['obj', cj] (a fresh instance of class cj) | ['list'|'tuple', [json values]]
+#        | ['objs', 'list'|'tuple', [cj..]]
+class CtorBehaviour(Behaviour):
+    """every static style writes the __init__(**kwargs) generated code has (a class without one ignores keywords)"""
+    init_always = True
+
+    def token(self, t):
+        if t[0] == 'v':
+            return t[1]
+        if t[0] == 'none':
+            return None
+        if t[0] == 'obj':
+            return self.factories[t[1]]()
+        if t[0] in ('list', 'tuple'):
+            return list(t[1]) if t[0] == 'list' else tuple(t[1])
+        if t[0] == 'objs':
+            l = [self.factories[cj]() for cj in t[2]]
+            return l if t[1] == 'list' else tuple(l)
+        raise ValueError(t)
+
+    def step(self, st):
+        if st[0] == 'ctor':
+            o = self.factories[st[1]](**{k: self.token(t) for k, t in st[2].items()})
+            self.EObserver(o, notifyChanged=lambda n: self.log.append(
+                (n.kind.name, n.feature.name, n.feature.eContainingClass.name, canon(n.old), canon(n.new))))
+            self.objs[st[1]] = o
+            return self.state(o)
+        return super().step(st)
+
+
+CTOR_GOOD = {'EInt': [0, 3, -2], 'EString': ['', 'x', 'none'], 'EBoolean': [True, False], 'EDouble': [0.0, 1.5]}
+
+
+def gen_ctor_descr(rng):
+    """Item (+ subclass, + unrelated Box): single attributes with the type's default, an explicit default or none,
+    many-valued attributes, single / many references, a containment"""
+    classes = []
+    item = _cls(classes, 'Item', [])
+    pool = [_attr('label', 'EString', 1), _attr('level', 'EInt', 1), _attr('rank', 'EInt', 1, 3),
+            _attr('tag', 'EString', 1, 'none'), _attr('flag', 'EBoolean', 1), _attr('on', 'EBoolean', 1, True),
+            _attr('ratio', 'EDouble', 1, 2.5), _attr('ns', 'EInt', -1), _attr('ss', 'EString', -1),
+            _ref('next', 'Item', 1, False), _ref('others', 'Item', -1, False), _ref('part', 'Item', 1, True),
+            _ref('parts', 'Item', -1, True)]
+    rng.shuffle(pool)
+    k = rng.randrange(4, len(pool) + 1)
+    item['features'] += pool[:k]
+    sub = _cls(classes, 'SubItem', ['Item'])
+    sub['features'] += pool[k:k + 2]
+    if rng.random() < 0.5:
+        box = _cls(classes, 'Box', [])
+        box['features'] += [_attr('level', 'EString', 1, 'low'), _ref('content', 'Item', 1, True)]
+    for c in classes:
+        c['interface'] = False
+    return {'enums': [], 'classes': classes}
+
+
+def _all_features(D, ci):
+    byname = {c['name']: c for c in D['classes']}
+    out, todo, seen = [], [D['classes'][ci]['name']], set()
+    while todo:
+        c = byname[todo.pop(0)]
+        if c['name'] in seen:
+            continue
+        seen.add(c['name'])
+        out += c['features']
+        todo += c['supers']
+    return out
+
+
+def ctor_history(D, rng):
+    names = [c['name'] for c in D['classes']]
+    items = [ci for ci, c in enumerate(D['classes']) if c['name'] in ('Item', 'SubItem')]
+    h = []
+    for ci in range(len(D['classes'])):
+        feats = _all_features(D, ci)
+        for _ in range(rng.randrange(2, 5)):
+            kw = {}
+            for fd in rng.sample(feats, rng.randrange(0, len(feats) + 1)):
+                many, r = fd['upper'] != 1, rng.random()
+                if fd['kind'] == 'attr' and not many:
+                    kw[fd['name']] = ['none'] if r < 0.4 else ['v', rng.choice(CTOR_GOOD[fd['type']])] if r < 0.93 else ['v', [1]]
+                elif fd['kind'] == 'attr':
+                    vals = [rng.choice(CTOR_GOOD[fd['type']]) for _ in range(rng.randrange(0, 3))]
+                    kw[fd['name']] = [rng.choice(['list', 'tuple']), vals] if r < 0.9 else ['none']
+                elif not many:
+                    kw[fd['name']] = ['none'] if r < 0.45 else ['obj', rng.choice(items)] if r < 0.93 else ['obj', names.index('Box') if 'Box' in names else ci]
+                else:
+                    kw[fd['name']] = ['objs', rng.choice(['list', 'tuple']), [rng.choice(items) for _ in range(rng.randrange(0, 3))]] \
+                        if r < 0.9 else ['none']
+            h.append(['ctor', ci, kw])
+            for fd in rng.sample(feats, min(2, len(feats))):
+                h += [['get', ci, fd['name']], ['isset', ci, fd['name']]]
+            if rng.random() < 0.6:
+                h.append(['xload', ci])
     return h
